@@ -2510,3 +2510,42 @@ def r7_22_bitmap_read_word_by_word(ck, P, rid='C07-R22'):
                 ck.violation(R, fn, 'bitmap handed to a library routine (%s)' % _w(u), '%s passes a pointer into the bitmap to %s (%s): whatever that routine concludes about the rows is concluded from whole bytes (or words), not from the width pixels the image has, and the region no longer holds exactly the set bits' % (fn, bad.callee, bad.loc()), bad.loc())
     if n == 0:
         raise AnalysisBroken('%s: no bitmap import found' % rid)
+
+
+def r6_17_extents_recomputed_after_subtraction(ck, P, rid='C06-R17'):
+    """Must-pass-through: subtraction can remove the rectangles that defined any side of the bounding box - also the top or bottom band of
+    a multi-band minuend while the subtrahend stays inside it horizontally.  After the band merger has run, the extents are recomputed
+    on every path to a successful return."""
+    R = ck.rule(rid, 'in the subtract and inverse operators of both region widths every path from the call of the band merger to a return passes the call that recomputes the extents (or marks the region broken): keeping the minuend\'s extents because "the subtrahend reaches neither side" is wrong for a minuend whose first or last band is narrower than its bounding box', floor=2)
+    n = 0
+    for u in units(P):
+        for fn, f in sorted(u.functions.items()):
+            if not fn.endswith(('_subtract', '_inverse')):
+                continue
+            ops = [c for c in f.calls() if isinstance(c.callee, str) and c.callee == 'pixman_op']
+            for c in ops:
+                n += 1; ck.saw(f)
+                hit = f.reach_avoiding(c, lambda q: q.op == 'call' and isinstance(q.callee, str) and q.callee in ('pixman_set_extents', 'pixman_break'), lambda q: q.op == 'ret')
+                # the failure return right after the merger (it returned FALSE) needs no extents
+                ok = hit is None
+                if not ok:
+                    # accept when the only bypass is the edge taken on a FALSE result of the merger
+                    br = [u_ for u_ in f.users(c) if u_.op in ('icmp', 'br')]
+                    fail_blocks = set()
+                    for t, s_ in [(b.term, s) for b in f.blocks for s in set(b.succ) if b.term.op == 'br' and b.term.a]:
+                        cc, p, ops_ = f.cond(t.a[0])
+                        if cc is c or (cc is not None and any(list(o) == ['v', c.i] for o in (ops_ or []))):
+                            truth = t.d['succ'][0] == s_
+                            zero = (p in ('not', 'eq') and truth) or (p in ('is', 'ne') and not truth)
+                            if zero:
+                                fail_blocks.add(s_)
+                    seen = set(); work = list(f.blocks[c.bb.id].succ) if c is f.blocks[c.bb.id].insts[-2] else [c.bb.id]
+                    hit2 = f.reach_avoiding(c, lambda q: (q.op == 'call' and isinstance(q.callee, str) and q.callee in ('pixman_set_extents', 'pixman_break')) or q.bb.id in fail_blocks, lambda q: q.op == 'ret')
+                    ok = hit2 is None
+                where = '%s (%s): after the band merger at %s' % (fn, u.name, c.loc())
+                if ok:
+                    ck.ok(R, where, 'extents recomputed')
+                else:
+                    ck.violation(R, fn, 'extents kept after a subtraction (%s)' % _w(u), '%s can return successfully after the band merger (%s) without recomputing the extents: what was subtracted may have removed the band that defined the top or the bottom of the bounding box, so the extents are no longer tight, and when one rectangle remains the stale extents become the rectangle' % (fn, c.loc()), c.loc())
+    if n == 0:
+        raise AnalysisBroken('%s: no subtract / inverse calling the band merger found' % rid)
